@@ -389,6 +389,56 @@ pub fn judge(base: &Tree, muts: &[usize], scratch: &Scratch) -> Vec<Violation> {
             format!("{at}: backup reported {got_cb:?}, the trees differ (files) as {want_cb:?}"),
         ));
     }
+    // (4) a further backup of the same tree that leaves something out (a top-level directory and a
+    // top-level file, by rooted pattern): the files the new version no longer holds are the real
+    // difference between the two versions, and the report names exactly those as deleted.
+    let plain = |k: &str| !k.is_empty() && !k.contains('/') && k.chars().all(|c| c.is_ascii_alphanumeric() || c == '.' || c == '-' || c == ' ');
+    let mut excl: Vec<String> = Vec::new();
+    if let Some((d, _)) = new.iter().find(|(k, n)| plain(k) && n.is_dir() && new.iter().any(|(c, cn)| cn.is_file() && c.starts_with(&format!("{k}/")))) {
+        excl.push(format!("/{d}"));
+    }
+    if let Some((f, _)) = new.iter().find(|(k, n)| plain(k) && n.is_file()) {
+        excl.push(format!("/{f}"));
+    }
+    if !excl.is_empty() {
+        let mut o3 = opts.clone();
+        o3.exclude = excl.clone();
+        let out3 = run::do_backup(&arch, &src2, &o3, run::NOHOOK, Flavor::Current);
+        if !out3.clean_success() {
+            v.push(Violation::new("C18:third-backup-failed", format!("{at}: exclude {excl:?}: {}", out3.describe())));
+            return v;
+        }
+        let covered = |a: &str| excl.iter().any(|p| a == p || a.starts_with(&format!("{p}/")));
+        let mut want3: Vec<(String, char)> = new
+            .iter()
+            .filter(|(k, n)| !k.is_empty() && n.is_file() && covered(&format!("/{k}")))
+            .map(|(k, _)| (format!("/{k}"), '-'))
+            .collect();
+        let mut got3: Vec<(String, char)> = out3
+            .changes
+            .iter()
+            .filter(|(a, s)| *s != '.' && (*s != '-' || is_file_in(&new, a)))
+            .cloned()
+            .collect();
+        got3.sort_by(|a, b| apath_cmp(&a.0, &b.0));
+        want3.sort_by(|a, b| apath_cmp(&a.0, &b.0));
+        if got3 != want3 {
+            v.push(Violation::new(
+                "C18:backup-change-report-differs-when-leaving-out",
+                format!("{at}: backup excluding {excl:?} reported {got3:?}; the version before it and the new one differ (files) as {want3:?}"),
+            ));
+        }
+        // (and the new version really is the old one less those paths)
+        let snap = crate::fmt06::Snap::load(&arch);
+        let held: Vec<String> = snap.band_entries(2).into_iter().map(|e| e.apath).collect();
+        let expect: Vec<String> = snap.band_entries(1).into_iter().map(|e| e.apath).filter(|a| !covered(a)).collect();
+        if held != expect {
+            v.push(Violation::new(
+                "C18:version-made-leaving-out-holds-other-paths",
+                format!("{at}: excluding {excl:?}: holds {held:?}, expected {expect:?}"),
+            ));
+        }
+    }
     v
 }
 
@@ -450,7 +500,7 @@ pub fn run(report: &Report, budget: &Budget) {
     report.set("transitions", json!(n.load(AO::Relaxed) * 5));
     report.set("traces_validated_against_impl", json!(n.load(AO::Relaxed) * 5));
     report.set("exhaustive", json!(done == total));
-    report.set("explanation", json!("three base trees x every set of at most N mutations from a menu of 23 (content, size-only, mtime-only, chmod, chown, kind swaps, additions, removals, retargeted link): diff with and without include_unchanged and the next backup's change callback are compared with the difference of the two tree models"));
+    report.set("explanation", json!("three base trees x every set of at most N mutations from a menu of 23 (content, size-only, mtime-only, chmod, chown, kind swaps, additions, removals, retargeted link): diff with and without include_unchanged and the next backup's change callback are compared with the difference of the two tree models; then a further backup that leaves a directory and a file out by pattern must report exactly the files the new version no longer holds as deleted"));
     report.assume("the change callback is compared on paths that are regular files (in the new tree for '+' and '*', in the old one for '-'); a path that becomes a directory or symlink is left out, as the callback is only defined for files");
     report.assume("directory mtimes are not a change (as the implementation documents)");
 }
